@@ -140,4 +140,12 @@ theorem funcOrder_total (a b : Nat × Nat) :
     · exact absurd this h2
     · exact Or.inr ⟨this.symm, by omega⟩
 
+theorem takeWhile_idem {α : Type} (p : α → Bool) (l : List α) : (l.takeWhile p).takeWhile p = l.takeWhile p := by
+  induction l with
+  | nil => rfl
+  | cons a t ih =>
+    by_cases h : p a
+    · simp [h, ih]
+    · simp [h]
+
 end Walrus
